@@ -103,7 +103,37 @@ func retryRules(c *Ctx) {
 			}
 			l.add("PATH", "a fatal error returns that call's result with the unwrapped error", ok, "return (result, unpackFatalError(err)) only through isFatalError(err)", r)
 		case P.IsCallResult(ev, "invoke:context.Context.Err", 0):
-			l.add("PATH", "cancellation returns (nil, ctx.Err())", isNilConst(rv), "result is nil", r)
+			// ... and only because the context IS cancelled: the return is reachable only through the non-nil edge of a test
+			// of ctx.Err() (an error that merely looks like a cancellation - a per-attempt timeout, say - is retried)
+			ctxv := ev.(*ssa.Call).Call.Value
+			via := false
+			ifs, negs := P.IfsOn(l.fn, func(cond ssa.Value) bool {
+				b, ok := cond.(*ssa.BinOp)
+				if !ok || (b.Op != token.EQL && b.Op != token.NEQ) {
+					return false
+				}
+				isErr := func(v ssa.Value) bool {
+					call, ok := v.(*ssa.Call)
+					return ok && call.Call.IsInvoke() && call.Call.Method.Name() == "Err" && call.Call.Value == ctxv
+				}
+				return either(b, isErr, isNilConst)
+			})
+			for i, ifi := range ifs {
+				b := stripNotV(ifi.Cond).(*ssa.BinOp)
+				nonNilWhenTrue := b.Op == token.NEQ
+				if negs[i] {
+					nonNilWhenTrue = !nonNilWhenTrue
+				}
+				ns := 1
+				if nonNilWhenTrue {
+					ns = 0
+				}
+				if l.onlyViaEdge(r, ifi, ns) {
+					via = true
+				}
+			}
+			okc := isNilConst(rv) && via
+			l.add("PATH", "cancellation returns (nil, ctx.Err())", okc, pickS(okc, "result is nil and the return is reached only where ctx.Err() != nil was observed", "the loop can end with the context's error although the context was not observed cancelled (with a live context that is (nil, nil): success reported although no call succeeded), or with a non-nil result"), r)
 		default:
 			l.add("PATH", "no other way out of the retry loop", false, "unexpected return shape", r)
 		}
